@@ -172,10 +172,21 @@ def run(ctx):
             n = math.sqrt(sum(x * x for x in u))
             p = [R * x / n for x in u]
             if k % 10 == 1:                          # a metre (or less) off the axis, height inside [-10 km, 40 000 km]
-                p[0], p[1] = rnd.choice([1.0, 1e-3, 100.0, 5e-4, 1e-4, 1e-6]) * (1 if k % 4 else -1), 0.0
+                # (k is odd here: `k % 4` never vanished and x stayed positive; the side alternates with k // 10 - round 9)
+                p[0], p[1] = rnd.choice([1.0, 1e-3, 100.0, 5e-4, 1e-4, 1e-6]) * (1 if (k // 10) % 2 else -1), 0.0
                 p[2] = math.copysign(max(R, float(E.semimin) - 9.0e3), p[2] if p[2] else 1.0)
             if k % 10 == 3:
                 p[2] = 0.0
+            if k % 10 == 5:
+                # beside the +-180 meridian (x < 0, |y| << |x|), one decade of the offset per event, both sides, and the meridian
+                # itself as Cartesian input (y == 0.0 and y == -0.0 exactly: llh2xyz(lat, 180) never gives that) - round 9, C03-r9-1
+                j = k // 10
+                d = math.radians([0.0, 1e-13, 1e-11, 1e-9, 1e-7, 1e-5, 1e-3, 2e-2][j % 8])
+                side = 1.0 if (j // 8) % 2 else -1.0
+                la = math.radians(rnd.choice([0.0, rnd.uniform(-89.0, 89.0), rnd.uniform(-89.0, 89.0)]))
+                p = [-R * math.cos(la) * math.cos(d), side * R * math.cos(la) * math.sin(d), R * math.sin(la)]
+                if d == 0.0:
+                    p[1] = 0.0 * side
         traces.append({"ev": [inv_event(cv, name, E, p)]})
         calls += 2
     ctx.evaluations = calls
